@@ -1,6 +1,315 @@
-(** C02 — placeholder until Proofs/Kleene_proofs.v is in. *)
-From Coq Require Import List.
-Require Import Fggs.Model.Semiring Fggs.Model.SumProduct Fggs.Model.Kleene.
-Theorem C02_Zk_unfold : forall R (o : sr_ops R) G w k, Zk o G w (S k) = step o G w (Zk o G w k).
-Proof. reflexivity. Qed.
-Print Assumptions C02_Zk_unfold.
+(** C02 — the sum-product of a recursive FGG is the least fixed point, or says otherwise.
+    Only property theorems live here, each closed by [exact] and followed by Print Assumptions.
+    Generic over a semiring [o : sr_ops R] with the laws [sr_ring o] (commutative semiring) and
+    [sr_ordered o] (monotone operations, zero least) as premises; the law records of the three
+    carriers are proved in Proofs/SemiringLaws.v (C08).  [Zk o G w k] is the k-th Kleene iterate
+    of the grammar's equations [step o G w] from zero (= the sum of the weights of the
+    derivation trees of depth <= k: Proofs/SP_trees.v). *)
+From Coq Require Import QArith List Arith Bool PeanoNat.
+Import ListNotations.
+Require Import Fggs.Model.SCC Fggs.Model.SumProduct Fggs.Model.SumProductCheck
+               Fggs.Model.EReal Fggs.Model.Trop Fggs.Model.Kleene.
+Require Import Fggs.Proofs.SP_mono Fggs.Proofs.Kleene_proofs Fggs.Proofs.Kleene_control.
+Require Import Fggs.Model.Semiring.
+Local Open Scope nat_scope.
+
+(** * 1. monotonicity *)
+Theorem C02_sumS_mono :
+  forall R (o : sr_ops R), sr_ordered o ->
+  forall A (l : list A) (f g : A -> R),
+    (forall a, In a l -> le o (f a) (g a)) -> le o (sumS o l f) (sumS o l g).
+Proof. exact (fun R o Ho A => @sumS_mono R o Ho A). Qed.
+Print Assumptions C02_sumS_mono.
+
+Theorem C02_prodS_mono :
+  forall R (o : sr_ops R), sr_ring o -> sr_ordered o ->
+  forall A (l : list A) (f g : A -> R),
+    (forall a, In a l -> le o (f a) (g a)) -> le o (prodS o l f) (prodS o l g).
+Proof. exact (fun R o Hr Ho A => @prodS_mono R o Hr Ho A). Qed.
+Print Assumptions C02_prodS_mono.
+
+Theorem C02_rule_val_mono :
+  forall R (o : sr_ops R), sr_ring o -> sr_ordered o ->
+  forall G (e1 e2 : env (R:=R)) r xi,
+    (forall X xj, le o (e1 X xj) (e2 X xj)) -> le o (rule_val o G e1 r xi) (rule_val o G e2 r xi).
+Proof. exact (@rule_val_mono). Qed.
+Print Assumptions C02_rule_val_mono.
+
+(** the equations are monotone in the environment, pointwise on every label and index tuple *)
+Theorem C02_step_mono :
+  forall R (o : sr_ops R), sr_ring o -> sr_ordered o ->
+  forall G w (x y : env (R:=R)),
+    (forall X xi, le o (x X xi) (y X xi)) -> forall X xi, le o (step o G w x X xi) (step o G w y X xi).
+Proof. exact (@step_mono). Qed.
+Print Assumptions C02_step_mono.
+
+(** a well-formed rule reads its sub-environment only at labels of the grammar and at in-range
+    index tuples ... *)
+Theorem C02_rule_queries_in_range :
+  forall G r ed a,
+    wf_rule G r = true -> In ed (r_edges r) -> In a (all_assts (node_sizes G r)) ->
+    fst ed < length (g_labels G) /\ In (sel a (snd ed)) (all_assts (lshape G (fst ed))).
+Proof.
+  exact (fun G r ed a Hwf Hed Ha =>
+           conj (proj1 (wf_rule_edge G r ed Hwf Hed)) (wf_rule_query_in_range G r ed a Hwf Hed Ha)).
+Qed.
+Print Assumptions C02_rule_queries_in_range.
+
+(** ... so for a well-formed grammar it is enough to compare the environments on the
+    nonterminals at in-range tuples *)
+Theorem C02_step_mono_on_range :
+  forall R (o : sr_ops R), sr_ring o -> sr_ordered o ->
+  forall G w (x y : env (R:=R)),
+    wf_grammar G = true ->
+    (forall X xi, In X (nonterminals G) -> In xi (all_assts (lshape G X)) -> le o (x X xi) (y X xi)) ->
+    forall X xi, le o (step o G w x X xi) (step o G w y X xi).
+Proof. exact (@step_mono_on). Qed.
+Print Assumptions C02_step_mono_on_range.
+
+(** the Kleene iterates form an increasing chain (uses zero_le) *)
+Theorem C02_Zk_chain :
+  forall R (o : sr_ops R), sr_ring o -> sr_ordered o ->
+  forall G w k X xi, le o (Zk o G w k X xi) (Zk o G w (S k) X xi).
+Proof. exact (@Zk_chain). Qed.
+Print Assumptions C02_Zk_chain.
+
+(** * 2. Park: every pre-fixed point bounds every Kleene iterate *)
+Theorem C02_park :
+  forall R (o : sr_ops R), sr_ring o -> sr_ordered o ->
+  forall G w (u : env (R:=R)),
+    (forall X xi, le o (step o G w u X xi) (u X xi)) ->
+    forall k X xi, le o (Zk o G w k X xi) (u X xi).
+Proof. exact (@park). Qed.
+Print Assumptions C02_park.
+
+Theorem C02_park_on_range :
+  forall R (o : sr_ops R), sr_ring o -> sr_ordered o ->
+  forall G w (u : env (R:=R)),
+    wf_grammar G = true ->
+    (forall X xi, In X (nonterminals G) -> In xi (all_assts (lshape G X)) -> le o (step o G w u X xi) (u X xi)) ->
+    forall k X xi, In X (nonterminals G) -> In xi (all_assts (lshape G X)) -> le o (Zk o G w k X xi) (u X xi).
+Proof. exact (@park_on). Qed.
+Print Assumptions C02_park_on_range.
+
+(** tables: reading back a tabulated function *)
+Theorem C02_tab_get_tabulate :
+  forall R (o : sr_ops R) shape (f : list nat -> R) xi,
+    In xi (all_assts shape) -> tab_get o (tabulate shape f) xi = f xi.
+Proof. exact (@tab_get_tabulate). Qed.
+Print Assumptions C02_tab_get_tabulate.
+
+(** Kleene iteration on tables with every cell rounded down stays below the exact iterates
+    (at every label and tuple: out-of-range reads of a table give zero) *)
+Theorem C02_rounded_below_exact :
+  forall R (o : sr_ops R), sr_ring o -> sr_ordered o ->
+  forall rd : R -> R, (forall x, le o (rd x) x) ->
+  forall G w k X xi, le o (env_of o (Ktab o rd G w k) X xi) (Zk o G w k X xi).
+Proof. exact (@Ktab_below_Zk). Qed.
+Print Assumptions C02_rounded_below_exact.
+
+(** without rounding the tables ARE the iterates, on the range *)
+Theorem C02_unrounded_exact :
+  forall R (o : sr_ops R) G w k, wf_grammar G = true ->
+  forall X xi, In X (nonterminals G) -> In xi (all_assts (lshape G X)) ->
+    env_of o (Ktab o (fun x => x) G w k) X xi = Zk o G w k X xi.
+Proof. exact (@Ktab_exact). Qed.
+Print Assumptions C02_unrounded_exact.
+
+(** * 3. certified enclosures *)
+(** [enclosure ... = Some (lo, u)]: u is above every Kleene iterate (so above their limit, the
+    least fixed point); lo is the rounded iterate number 4 j (j <= K rounds) and below the exact
+    one (so below the limit); lo is below every pre-fixed point; lo <= u; u is a pre-fixed point *)
+Theorem C02_enclosure_sound :
+  forall R (o : sr_ops R), sr_ring o -> sr_ordered o ->
+  forall (rd infl : R -> R) (leb : R -> R -> bool),
+    (forall x, le o (rd x) x) -> (forall x y, leb x y = true -> le o x y) ->
+  forall G w K lo u,
+    wf_grammar G = true ->
+    enclosure o rd infl leb G w K = Some (lo, u) ->
+    (forall k X xi, In X (nonterminals G) -> In xi (all_assts (lshape G X)) ->
+                    le o (Zk o G w k X xi) (env_of o u X xi))
+    /\ (exists j, j <= K /\ lo = Ktab o rd G w (4 * j)
+                  /\ forall X xi, In X (nonterminals G) -> In xi (all_assts (lshape G X)) ->
+                                  le o (env_of o lo X xi) (Zk o G w (4 * j) X xi))
+    /\ (forall v : env (R:=R),
+          (forall X xi, In X (nonterminals G) -> In xi (all_assts (lshape G X)) -> le o (step o G w v X xi) (v X xi)) ->
+          forall X xi, In X (nonterminals G) -> In xi (all_assts (lshape G X)) -> le o (env_of o lo X xi) (v X xi))
+    /\ (forall X xi, In X (nonterminals G) -> In xi (all_assts (lshape G X)) ->
+                     le o (env_of o lo X xi) (env_of o u X xi))
+    /\ (forall X xi, In X (nonterminals G) -> In xi (all_assts (lshape G X)) ->
+                     le o (step o G w (env_of o u) X xi) (env_of o u X xi)).
+Proof. exact (@enclosure_sound). Qed.
+Print Assumptions C02_enclosure_sound.
+
+(** no rounding, no inflation: the enclosure is the least fixed point itself, reached after
+    4 j Kleene steps *)
+Theorem C02_enclosure_exact :
+  forall R (o : sr_ops R), sr_ring o -> sr_ordered o ->
+  forall leb : R -> R -> bool, (forall x y, leb x y = true -> le o x y) ->
+  forall G w K lo u,
+    wf_grammar G = true ->
+    enclosure o (fun x => x) (fun x => x) leb G w K = Some (lo, u) ->
+    u = lo
+    /\ (forall X xi, In X (nonterminals G) -> In xi (all_assts (lshape G X)) ->
+                     step o G w (env_of o lo) X xi = env_of o lo X xi)
+    /\ (forall v : env (R:=R),
+          (forall X xi, In X (nonterminals G) -> In xi (all_assts (lshape G X)) -> le o (step o G w v X xi) (v X xi)) ->
+          forall X xi, In X (nonterminals G) -> In xi (all_assts (lshape G X)) -> le o (env_of o lo X xi) (v X xi))
+    /\ (forall k X xi, In X (nonterminals G) -> In xi (all_assts (lshape G X)) ->
+                       le o (Zk o G w k X xi) (env_of o lo X xi))
+    /\ (exists j, j <= K /\ forall X xi, In X (nonterminals G) -> In xi (all_assts (lshape G X)) ->
+                                         env_of o lo X xi = Zk o G w (4 * j) X xi).
+Proof. exact (@enclosure_exact). Qed.
+Print Assumptions C02_enclosure_exact.
+
+(** Bool (the instance used by [fp_check_bool]); no premises *)
+Theorem C02_bool_exact :
+  forall G w K lo u,
+    wf_grammar G = true ->
+    enclosure bool_ops (fun x => x) (fun x => x) (fun a b : bool => implb a b) G w K = Some (lo, u) ->
+    u = lo
+    /\ (forall X xi, In X (nonterminals G) -> In xi (all_assts (lshape G X)) ->
+                     step bool_ops G w (env_of bool_ops lo) X xi = env_of bool_ops lo X xi)
+    /\ (forall v : env (R:=bool),
+          (forall X xi, In X (nonterminals G) -> In xi (all_assts (lshape G X)) ->
+                        step bool_ops G w v X xi = true -> v X xi = true) ->
+          forall X xi, In X (nonterminals G) -> In xi (all_assts (lshape G X)) ->
+                       env_of bool_ops lo X xi = true -> v X xi = true)
+    /\ (forall k X xi, In X (nonterminals G) -> In xi (all_assts (lshape G X)) ->
+                       Zk bool_ops G w k X xi = true -> env_of bool_ops lo X xi = true)
+    /\ (exists j, j <= K /\ forall X xi, In X (nonterminals G) -> In xi (all_assts (lshape G X)) ->
+                                         env_of bool_ops lo X xi = Zk bool_ops G w (4 * j) X xi).
+Proof. exact enclosure_bool_exact. Qed.
+Print Assumptions C02_bool_exact.
+
+(** Viterbi (the instance used by [fp_check_trop]) *)
+Theorem C02_trop_exact :
+  sr_ring trop_ops -> sr_ordered trop_ops ->
+  forall G w K lo u,
+    wf_grammar G = true ->
+    enclosure trop_ops (fun x => x) (fun x => x) tleb G w K = Some (lo, u) ->
+    u = lo
+    /\ (forall X xi, In X (nonterminals G) -> In xi (all_assts (lshape G X)) ->
+                     step trop_ops G w (env_of trop_ops lo) X xi = env_of trop_ops lo X xi)
+    /\ (forall v : env (R:=trop),
+          (forall X xi, In X (nonterminals G) -> In xi (all_assts (lshape G X)) -> tle (step trop_ops G w v X xi) (v X xi)) ->
+          forall X xi, In X (nonterminals G) -> In xi (all_assts (lshape G X)) -> tle (env_of trop_ops lo X xi) (v X xi))
+    /\ (forall k X xi, In X (nonterminals G) -> In xi (all_assts (lshape G X)) ->
+                       tle (Zk trop_ops G w k X xi) (env_of trop_ops lo X xi))
+    /\ (exists j, j <= K /\ forall X xi, In X (nonterminals G) -> In xi (all_assts (lshape G X)) ->
+                                         env_of trop_ops lo X xi = Zk trop_ops G w (4 * j) X xi).
+Proof. exact enclosure_trop_exact. Qed.
+Print Assumptions C02_trop_exact.
+
+(** Real / Log (the instance used by [fp_check_real]) *)
+Theorem C02_real_enclosure_sound :
+  sr_ring ereal_ops -> sr_ordered ereal_ops ->
+  forall G w K lo u,
+    wf_grammar G = true ->
+    enclosure ereal_ops rd_real infl_real eleb G w K = Some (lo, u) ->
+    (forall k X xi, In X (nonterminals G) -> In xi (all_assts (lshape G X)) ->
+                    ele (Zk ereal_ops G w k X xi) (env_of ereal_ops u X xi))
+    /\ (exists j, j <= K /\ lo = Ktab ereal_ops rd_real G w (4 * j)
+                  /\ forall X xi, In X (nonterminals G) -> In xi (all_assts (lshape G X)) ->
+                                  ele (env_of ereal_ops lo X xi) (Zk ereal_ops G w (4 * j) X xi))
+    /\ (forall v : env (R:=ereal),
+          (forall X xi, In X (nonterminals G) -> In xi (all_assts (lshape G X)) -> ele (step ereal_ops G w v X xi) (v X xi)) ->
+          forall X xi, In X (nonterminals G) -> In xi (all_assts (lshape G X)) -> ele (env_of ereal_ops lo X xi) (v X xi))
+    /\ (forall X xi, In X (nonterminals G) -> In xi (all_assts (lshape G X)) ->
+                     ele (env_of ereal_ops lo X xi) (env_of ereal_ops u X xi))
+    /\ (forall X xi, In X (nonterminals G) -> In xi (all_assts (lshape G X)) ->
+                     ele (step ereal_ops G w (env_of ereal_ops u) X xi) (env_of ereal_ops u X xi)).
+Proof. exact enclosure_real_sound. Qed.
+Print Assumptions C02_real_enclosure_sound.
+
+(** the instance-specific side conditions *)
+Theorem C02_rd_real_le : forall x, ele (rd_real x) x.
+Proof. exact rd_real_le. Qed.
+Print Assumptions C02_rd_real_le.
+
+Theorem C02_eleb_sound : forall x y, eleb x y = true -> ele x y.
+Proof. exact eleb_sound. Qed.
+Print Assumptions C02_eleb_sound.
+
+Theorem C02_tleb_sound : forall x y, tleb x y = true -> tle x y.
+Proof. exact tleb_sound. Qed.
+Print Assumptions C02_tleb_sound.
+
+(** * 4. control flow *)
+(** ValueError is expected exactly for method="linear" (tag 2) when some component of the
+    evaluation order is not one-step and has a rule with two or more component edges *)
+Theorem C02_expect_value_error_iff :
+  forall G meth order,
+    expect_value_error G meth order = true <->
+    meth = 2 /\ exists comp, In comp order
+      /\ ~ (length comp = 1 /\ max_rhs G comp = 0)
+      /\ exists n r, In n comp /\ In r (rules_of G n)
+                     /\ 2 <= length (filter (fun ed => mem comp (fst ed)) (r_edges r)).
+Proof. exact expect_value_error_iff. Qed.
+Print Assumptions C02_expect_value_error_iff.
+
+(** [max_rhs] is what its name says *)
+Theorem C02_max_rhs_spec :
+  forall G comp,
+    (forall n r, In n comp -> In r (rules_of G n) ->
+                 length (filter (fun ed => mem comp (fst ed)) (r_edges r)) <= max_rhs G comp)
+    /\ forall b, (forall n r, In n comp -> In r (rules_of G n) ->
+                              length (filter (fun ed => mem comp (fst ed)) (r_edges r)) <= b) ->
+                 max_rhs G comp <= b.
+Proof. exact (fun G comp => conj (max_rhs_ge G comp) (max_rhs_le G comp)). Qed.
+Print Assumptions C02_max_rhs_spec.
+
+(** method="newton" is downgraded to "linear" only where that cannot raise *)
+Theorem C02_newton_downgrade_never_raises :
+  forall G comp, comp_method G 1 comp = 2 -> linear_raises G comp = false.
+Proof. exact newton_downgrade_never_raises. Qed.
+Print Assumptions C02_newton_downgrade_never_raises.
+
+(** fixed_point's loop: the fuel suffices; it warns iff the first kmax+1 stopping tests all
+    fail; if it does not warn, the returned consecutive iterates pass the stopping test *)
+Theorem C02_fixed_point_loop_total :
+  forall A (F : A -> A) close kmax x, exists r, fixed_point_loop F close kmax x = Some r.
+Proof. exact (@fixed_point_loop_total). Qed.
+Print Assumptions C02_fixed_point_loop_total.
+
+Theorem C02_fixed_point_warns_iff :
+  forall A (F : A -> A) close kmax x y0 y1 warned,
+    fixed_point_loop F close kmax x = Some (y0, y1, warned) ->
+    (warned = true <-> forall i, i <= kmax -> close (iter i F x) (iter (S i) F x) = false).
+Proof. exact (@fixed_point_loop_warns_iff). Qed.
+Print Assumptions C02_fixed_point_warns_iff.
+
+Theorem C02_fixed_point_quiet :
+  forall A (F : A -> A) close kmax x y0 y1,
+    fixed_point_loop F close kmax x = Some (y0, y1, false) ->
+    close y0 y1 = true /\ y1 = F y0 /\ exists k, k <= kmax /\ y0 = iter k F x.
+Proof. exact (@fixed_point_loop_quiet). Qed.
+Print Assumptions C02_fixed_point_quiet.
+
+(** newton's loop after the F3 repair warns iff no iteration's stop test succeeded *)
+Theorem C02_newton_warns_iff :
+  forall A (body : A -> A * bool) kmax x,
+    snd (newton_loop body kmax x) = true <->
+    forall i, i < kmax -> snd (body (iter i (fun y => fst (body y)) x)) = false.
+Proof. exact (@newton_loop_warns_iff). Qed.
+Print Assumptions C02_newton_warns_iff.
+
+Theorem C02_newton_quiet :
+  forall A (body : A -> A * bool) kmax x,
+    snd (newton_loop body kmax x) = false ->
+    exists i, i < kmax /\ nstop body x i = true /\ (forall j, j < i -> nstop body x j = false)
+              /\ fst (newton_loop body kmax x) = nstate body x (S i).
+Proof. exact (@newton_loop_quiet). Qed.
+Print Assumptions C02_newton_quiet.
+
+(** F3: the loop shape before the repair (`if k > kmax` after `for k in range(kmax)`) can never
+    warn, and computes the same state *)
+Theorem C02_newton_old_never_warns :
+  forall A (body : A -> A * bool) kmax x, snd (newton_loop_old body kmax x) <> Some true.
+Proof. exact (@newton_old_never_warns). Qed.
+Print Assumptions C02_newton_old_never_warns.
+
+Theorem C02_newton_old_same_state :
+  forall A (body : A -> A * bool) kmax x, fst (newton_loop_old body kmax x) = fst (newton_loop body kmax x).
+Proof. exact (@newton_old_same_state). Qed.
+Print Assumptions C02_newton_old_same_state.
